@@ -506,8 +506,10 @@ func (r *BucketRing) EmitFlowCollections(sink Sink) {
 		endIndex = startIndex
 		startIndex = r.indexSubtract(startIndex, r.bucketsToAggregate)
 
-		// Terminate the loop if we've gone through all the buckets.
-		if r.indexBetween(startIndex, endIndex, r.headIndex) {
+		// Terminate the loop if we've gone through all the buckets. That includes the case where the
+		// next window would start or end exactly at the head: indexBetween() is exclusive at both ends,
+		// and walking on past the head would wrap around into the newest, still-filling buckets.
+		if startIndex == r.headIndex || endIndex == r.headIndex || r.indexBetween(startIndex, endIndex, r.headIndex) {
 			break
 		}
 	}
